@@ -137,6 +137,22 @@ type S7 struct {
 	Meta   NStrMap `bexpr:"meta"`
 }
 
+// S8: an exported embedded struct hidden as a whole (tagged "-" under both tag names)
+type Creds struct {
+	Token string
+	Level int
+}
+type S8acc struct {
+	ID    int
+	Creds `bexpr:"-" alt:"-"`
+}
+type S8 struct {
+	Name     string
+	Creds    `bexpr:"-" alt:"-"`
+	Accounts []S8acc
+	ByName   map[string]S8acc
+}
+
 var structTypes = []reflect.Type{reflect.TypeOf(S1{}), reflect.TypeOf(S2{}), reflect.TypeOf(S3{}), reflect.TypeOf(S4{}), reflect.TypeOf(S5{}), reflect.TypeOf(S6{}), reflect.TypeOf(S7{})}
 
 var ifaceT = reflect.TypeOf((*interface{})(nil)).Elem()
